@@ -111,7 +111,7 @@ func (e *Encoder) writeMap(data interface{}) (int, error) {
 	typ := vv.Type()
 
 	mapName, ok := e.nameMap[typ.Name()]
-	if ok {
+	if ok && typ.Name() != "" {
 		if _, err := e.writeBT(_mapTypedTag); err != nil {
 			return 0, err
 		}
